@@ -71,7 +71,6 @@ impl Broker {
         requires
             old(self).reg_inv(),
         ensures
-            final(self).reg_inv(),
             // a subscription is recorded only for a connected requester, a request with a serial and a live service
             (req.serial is None || !old(self).conns@.contains_key(*id) || !old(self).svc_uuids@.contains_key(req.service_cookie))
                 ==> final(self).unchanged(old(self)),
@@ -89,13 +88,17 @@ impl Broker {
                         && (forall|o: ServiceCookie| o != req.service_cookie ==> final(self).conns@[*id].ev(o) == old(self).conns@[*id].ev(o))
                         && final(self).conns@[*id].rest_eq(&old(self).conns@[*id], 3))
             },
+            // the invariant last (the frame facts above are then available), conjunct by conjunct (one query each
+            // keeps the solver stable), then as a whole
+            final(self).inv_objects(), final(self).inv_services(), final(self).inv_object_services(), final(self).inv_ownership(),
+            final(self).inv_calls(), final(self).inv_callers(), final(self).inv_conns(), final(self).inv_subs(),
+            final(self).reg_winv(), final(self).reg_inv(),
     //@end
 
     //@fn broker/src/broker.rs Broker::unsubscribe_event
         requires
             old(self).reg_inv(),
         ensures
-            final(self).reg_inv(),
             (!old(self).conns@.contains_key(*id) || !old(self).svc_uuids@.contains_key(req.service_cookie))
                 ==> final(self).unchanged(old(self)),
             (old(self).conns@.contains_key(*id) && old(self).svc_uuids@.contains_key(req.service_cookie)) ==> {
@@ -110,6 +113,11 @@ impl Broker {
                 &&& forall|o: ServiceCookie| o != req.service_cookie ==> final(self).conns@[*id].ev(o) == old(self).conns@[*id].ev(o)
                 &&& final(self).conns@[*id].rest_eq(&old(self).conns@[*id], 3)
             },
+            // the invariant last (the frame facts above are then available), conjunct by conjunct (one query each
+            // keeps the solver stable), then as a whole
+            final(self).inv_objects(), final(self).inv_services(), final(self).inv_object_services(), final(self).inv_ownership(),
+            final(self).inv_calls(), final(self).inv_callers(), final(self).inv_conns(), final(self).inv_subs(),
+            final(self).reg_winv(), final(self).reg_inv(),
     //@end
 
     // cleanup of one per-event subscription of a (possibly already removed) connection; the owner of the service is told
@@ -118,7 +126,7 @@ impl Broker {
         requires
             old(self).reg_winv(), old(self).no_orphans(),
         ensures
-            final(self).reg_winv(), final(self).no_orphans(),
+            final(self).no_orphans(),
             !old(self).svc_uuids@.contains_key(svc_cookie) ==> final(self).unchanged(old(self)) && *final(state) == *old(state),
             old(self).svc_uuids@.contains_key(svc_cookie) ==> {
                 let k = old(self).skey(svc_cookie);
@@ -140,13 +148,18 @@ impl Broker {
                         final(state).unsubscribe_event@ == old(state).unsubscribe_event@
                 &&& final(state).rest_eq(old(state), 5)
             },
+            // the invariant last (the frame facts above are then available), conjunct by conjunct (one query each
+            // keeps the solver stable), then as a whole
+            final(self).inv_objects(), final(self).inv_services(), final(self).inv_object_services(), final(self).inv_ownership(),
+            final(self).inv_calls(), final(self).inv_callers(), final(self).inv_conns(), final(self).inv_subs(),
+            final(self).reg_winv(),
     //@end
 
     //@fn broker/src/broker.rs Broker::remove_all_events_subscription
         requires
             old(self).reg_winv(), old(self).no_orphans(),
         ensures
-            final(self).reg_winv(), final(self).no_orphans(),
+            final(self).no_orphans(),
             !old(self).svc_uuids@.contains_key(svc_cookie) ==> final(self).unchanged(old(self)) && *final(state) == *old(state),
             old(self).svc_uuids@.contains_key(svc_cookie) ==> {
                 let k = old(self).skey(svc_cookie);
@@ -165,13 +178,17 @@ impl Broker {
                         final(state).unsubscribe_all_events@ == old(state).unsubscribe_all_events@
                 &&& final(state).rest_eq(old(state), 6)
             },
+            // the invariant last (the frame facts above are then available), conjunct by conjunct (one query each
+            // keeps the solver stable), then as a whole
+            final(self).inv_objects(), final(self).inv_services(), final(self).inv_object_services(), final(self).inv_ownership(),
+            final(self).inv_calls(), final(self).inv_callers(), final(self).inv_conns(), final(self).inv_subs(),
+            final(self).reg_winv(),
     //@end
 
     //@fn broker/src/broker.rs Broker::remove_subscription
         requires
             old(self).reg_winv(),
         ensures
-            final(self).reg_winv(),
             old(self).no_orphans() ==> final(self).no_orphans(),
             final(self).conns@ =~= old(self).conns@,
             !old(self).svc_uuids@.contains_key(svc_cookie) ==> final(self).unchanged(old(self)),
@@ -182,6 +199,11 @@ impl Broker {
                 &&& final(self).svcs@[k].events == old(self).svcs@[k].events
                 &&& final(self).svcs@[k].all_events == old(self).svcs@[k].all_events
             },
+            // the invariant last (the frame facts above are then available), conjunct by conjunct (one query each
+            // keeps the solver stable), then as a whole
+            final(self).inv_objects(), final(self).inv_services(), final(self).inv_object_services(), final(self).inv_ownership(),
+            final(self).inv_calls(), final(self).inv_callers(), final(self).inv_conns(), final(self).inv_subs(),
+            final(self).reg_winv(),
     //@end
 
     // ---- service subscriptions (protocol 1.18) -----------------------------------------------------------------------
@@ -189,7 +211,6 @@ impl Broker {
         requires
             old(self).reg_inv(),
         ensures
-            final(self).reg_inv(),
             !old(self).conns@.contains_key(*id) ==> r is Ok && final(self).unchanged(old(self)),
             // SubscribeService exists since protocol 1.18: a connection negotiated below that is closed
             (old(self).conns@.contains_key(*id) && ProtocolVersion::lex_cmp(old(self).conns@[*id].version, ProtocolVersion::V1_18) == core::cmp::Ordering::Less) ==> r is Err && final(self).unchanged(old(self)),
@@ -204,13 +225,17 @@ impl Broker {
                         && final(self).conns@[*id].subscriptions@ == old(self).conns@[*id].subscriptions@.insert(req.service_cookie)
                         && final(self).conns@[*id].rest_eq(&old(self).conns@[*id], 5))
             },
+            // the invariant last (the frame facts above are then available), conjunct by conjunct (one query each
+            // keeps the solver stable), then as a whole
+            final(self).inv_objects(), final(self).inv_services(), final(self).inv_object_services(), final(self).inv_ownership(),
+            final(self).inv_calls(), final(self).inv_callers(), final(self).inv_conns(), final(self).inv_subs(),
+            final(self).reg_winv(), final(self).reg_inv(),
     //@end
 
     //@fn broker/src/broker.rs Broker::unsubscribe_service
         requires
             old(self).reg_inv(),
         ensures
-            final(self).reg_inv(),
             !old(self).conns@.contains_key(*id) ==> r is Ok && final(self).unchanged(old(self)),
             (old(self).conns@.contains_key(*id) && ProtocolVersion::lex_cmp(old(self).conns@[*id].version, ProtocolVersion::V1_18) == core::cmp::Ordering::Less) ==> r is Err && final(self).unchanged(old(self)),
             (old(self).conns@.contains_key(*id) && !old(self).svc_uuids@.contains_key(req.service_cookie)) ==> final(self).unchanged(old(self)),
@@ -224,6 +249,11 @@ impl Broker {
                 &&& final(self).conns@[*id].subscriptions@ == old(self).conns@[*id].subscriptions@.remove(req.service_cookie)
                 &&& final(self).conns@[*id].rest_eq(&old(self).conns@[*id], 5)
             },
+            // the invariant last (the frame facts above are then available), conjunct by conjunct (one query each
+            // keeps the solver stable), then as a whole
+            final(self).inv_objects(), final(self).inv_services(), final(self).inv_object_services(), final(self).inv_ownership(),
+            final(self).inv_calls(), final(self).inv_callers(), final(self).inv_conns(), final(self).inv_subs(),
+            final(self).reg_winv(), final(self).reg_inv(),
     //@end
 
     // ---- all-events subscriptions (protocol 1.18) ---------------------------------------------------------------------
@@ -231,7 +261,6 @@ impl Broker {
         requires
             old(self).reg_inv(),
         ensures
-            final(self).reg_inv(),
             !old(self).conns@.contains_key(*id) ==> r is Ok && final(self).unchanged(old(self)),
             (old(self).conns@.contains_key(*id) && ProtocolVersion::lex_cmp(old(self).conns@[*id].version, ProtocolVersion::V1_18) == core::cmp::Ordering::Less) ==> r is Err && final(self).unchanged(old(self)),
             (old(self).conns@.contains_key(*id) && (req.serial is None || !old(self).svc_uuids@.contains_key(req.service_cookie)))
@@ -249,13 +278,17 @@ impl Broker {
                         && final(self).conns@[*id].all_events@ == old(self).conns@[*id].all_events@.insert(req.service_cookie)
                         && final(self).conns@[*id].rest_eq(&old(self).conns@[*id], 4))
             },
+            // the invariant last (the frame facts above are then available), conjunct by conjunct (one query each
+            // keeps the solver stable), then as a whole
+            final(self).inv_objects(), final(self).inv_services(), final(self).inv_object_services(), final(self).inv_ownership(),
+            final(self).inv_calls(), final(self).inv_callers(), final(self).inv_conns(), final(self).inv_subs(),
+            final(self).reg_winv(), final(self).reg_inv(),
     //@end
 
     //@fn broker/src/broker.rs Broker::unsubscribe_all_events
         requires
             old(self).reg_inv(),
         ensures
-            final(self).reg_inv(),
             !old(self).conns@.contains_key(*id) ==> r is Ok && final(self).unchanged(old(self)),
             (old(self).conns@.contains_key(*id) && ProtocolVersion::lex_cmp(old(self).conns@[*id].version, ProtocolVersion::V1_18) == core::cmp::Ordering::Less) ==> r is Err && final(self).unchanged(old(self)),
             (old(self).conns@.contains_key(*id) && !old(self).svc_uuids@.contains_key(req.service_cookie)) ==> final(self).unchanged(old(self)),
@@ -269,6 +302,11 @@ impl Broker {
                         && final(self).conns@[*id].all_events@ == old(self).conns@[*id].all_events@.remove(req.service_cookie)
                         && final(self).conns@[*id].rest_eq(&old(self).conns@[*id], 4))
             },
+            // the invariant last (the frame facts above are then available), conjunct by conjunct (one query each
+            // keeps the solver stable), then as a whole
+            final(self).inv_objects(), final(self).inv_services(), final(self).inv_object_services(), final(self).inv_ownership(),
+            final(self).inv_calls(), final(self).inv_callers(), final(self).inv_conns(), final(self).inv_subs(),
+            final(self).reg_winv(), final(self).reg_inv(),
     //@end
 }
 
